@@ -709,6 +709,10 @@ fn sig_mutations(msg: &[u8], s: &Signer, sig: &str, rng: &mut Rng, exhaustive: b
         out.push(csigmut_line("nonzb", p as u64, pk, msg, &m, msg, sig));
     }
     out.push(csigmut_line("nonzb", bytes.len() as u64, pk, msg, &format!("{sig}y"), msg, sig));
+    // the same text padded with white space (a different text: it must not recover the signer either)
+    for (k, m) in [format!("{sig}\n"), format!(" {sig}"), format!("\t{sig}\r\n"), format!("{sig} ")].iter().enumerate() {
+        out.push(csigmut_line("nonzb", (bytes.len() + 1 + k) as u64, pk, msg, m, msg, sig));
+    }
     // upper-case spellings of the same text
     out.push(csigmut_line("case", 0, pk, msg, &sig.to_uppercase(), msg, sig));
     // single-bit flips of the 65 signature bytes, re-encoded
